@@ -447,6 +447,70 @@ func genProgram07(rt *rapid.T, kinds []string) (*c07Program, func() *cs.Crit, in
 	return p, crit, nclients
 }
 
+// genIndexFlipProgram: readers whose plan goes through the index on u (sort on u, range
+// criteria on u) while other clients drop and re-create exactly that index and a writer
+// inserts: the shape in which a plan built from one catalog snapshot meets data of another.
+func genIndexFlipProgram(rt *rapid.T) *c07Program {
+	p := &c07Program{Backend: rapid.SampledFrom(raceBackends).Draw(rt, "backend")}
+	n := rapid.IntRange(3, 8).Draw(rt, "nseed")
+	docs := make([]cs.Doc, n)
+	for i := range docs {
+		docs[i] = cs.Doc{"_id": gen.Id(i), "u": int64(i), "x": int64(i % 3)}
+	}
+	p.Setup = []cs.Op{{Kind: "createcoll", Coll: "A"}, {Kind: "insert", Coll: "A", Docs: docs}, {Kind: "createindex", Coll: "A", Field: "u"}}
+	lit := func(v int) *cs.Operand { o := cs.Lit(int64(v)); return &o }
+	readers := rapid.IntRange(1, 4).Draw(rt, "readers")
+	for r := 0; r < readers; r++ {
+		var ops []cs.Op
+		for j := rapid.IntRange(2, 6).Draw(rt, "nreads"); j > 0; j-- {
+			q := &cs.Query{Coll: "A"}
+			switch rapid.IntRange(0, 2).Draw(rt, "readshape") {
+			case 0:
+				q.SortSet, q.Sort = true, []cs.SortOpt{{Field: "u", Dir: rapid.SampledFrom([]int{1, -1}).Draw(rt, "dir")}}
+			case 1:
+				q.Crit = &cs.Crit{Op: "gte", Field: "u", Arg: lit(rapid.IntRange(0, n).Draw(rt, "bound"))}
+			default:
+				q.Crit = &cs.Crit{Op: "lt", Field: "u", Arg: lit(rapid.IntRange(0, n+2).Draw(rt, "bound"))}
+				q.SortSet, q.Sort = true, []cs.SortOpt{{Field: "u", Dir: 1}}
+			}
+			kind := rapid.SampledFrom([]string{"find", "find", "count"}).Draw(rt, "readkind")
+			ops = append(ops, cs.Op{Kind: kind, Q: q})
+		}
+		p.Clients = append(p.Clients, ops)
+	}
+	var flips []cs.Op
+	for j := rapid.IntRange(2, 6).Draw(rt, "nflips"); j > 0; j-- {
+		flips = append(flips, cs.Op{Kind: "dropindex", Coll: "A", Field: "u"}, cs.Op{Kind: "createindex", Coll: "A", Field: "u"})
+	}
+	p.Clients = append(p.Clients, flips)
+	if rapid.Bool().Draw(rt, "with-writer") {
+		var w []cs.Op
+		for j := 0; j < 3; j++ {
+			w = append(w, cs.Op{Kind: "insert", Coll: "A", Docs: []cs.Doc{{"_id": gen.Id(50 + j), "u": int64(50 + j)}}})
+		}
+		p.Clients = append(p.Clients, w)
+	}
+	p.Bits = rapid.SliceOfN(rapid.Byte(), 16, 64).Draw(rt, "schedule-bits")
+	return p
+}
+
+// runConcurrent executes and checks a concurrent program for the property `owner`.
+func runConcurrent(rt *rapid.T, owner string, p *c07Program) (*c07History, string) {
+	h, f := runProgram07(p)
+	if f != nil {
+		prog := &sm.Program{Property: owner, Profile: "c07setup", Backend: p.Backend, Ops: p.Setup, Fail: f}
+		violate(rt, owner, "c07setup", prog, f)
+	}
+	verdict, f := checkHistory(h)
+	if f != nil {
+		if f.Property == "C07" {
+			f.Property = owner
+		}
+		violate(rt, owner, "c07", h, f)
+	}
+	return h, verdict
+}
+
 // concurrentCase runs one generated concurrent program for the property `owner` and reports
 // a non-linearizable history as a violation of that property.
 func concurrentCase(rt *rapid.T, owner string, kinds []string) (*c07History, string) {
@@ -475,6 +539,10 @@ func TestC07(t *testing.T) {
 	}
 	check(t, "C07", n, 0, func(rt *rapid.T) {
 		p, crit, nclients := genProgram07(rt, nil)
+		if rapid.IntRange(0, 5).Draw(rt, "index-flip") == 0 {
+			fp := genIndexFlipProgram(rt)
+			p, nclients = fp, len(fp.Clients)
+		}
 		backend := p.Backend
 
 		h, f := runProgram07(p)
